@@ -733,7 +733,7 @@ func (vc *VC) applyContract(ins *ssa.Call, c *Contract, f *ssa.Function, sig *ty
 		if c.clauseMode(cl) != vc.modeName() {
 			continue // postconditions stated in the other integer mode are not used here (sound: fewer assumptions)
 		}
-		if strings.Contains(cl.Src, "ret(\"") || strings.Contains(cl.Src, "called(\"") {
+		if strings.Contains(cl.Src, "ret(\"") || strings.Contains(cl.Src, "called(\"") || strings.Contains(cl.Src, "atcall(\"") {
 			continue // speaks about the callee's own calls: not visible to a caller
 		}
 		if cl.Mode == "ringax" {
